@@ -24,6 +24,7 @@ func init() {
 			"T7 narrow arithmetic: a multiplication of a decoded count by a constant element size carried out in 32 bits or less and feeding a comparison, a slice bound, an index or an allocation must be done after widening to 64 bits or be dominated by an upper-bound check of the count (sums of decoded offsets and sizes are validated relationally elsewhere and are not decided here). " +
 			"T9 the page loops of the SEV measurement run only after the address-range/alignment check returned nil, and that check returns nil only behind every one of its tests (no bypassing return). " +
 			"T10 sentinel index: the result of a bytes/strings/slices Index-family search (−1 = not found) used as an index, slice bound or allocation size needs a dominating sign test of that very value. T11 x[len(x)−k] / x[:len(x)−k] needs a dominating condition on that very slice value establishing len(x) ≥ k (one named suppression with reason in C07). T12 +,−,*,<< on a decoded operand carried out in fewer bits than the integer type its result is then converted to needs a dominating upper bound of the operand. T13 (ESP) a []byte sliced at bounds that move with a loop counter, in a loop that runs up to a value not computed from the buffer's length, is reached only on paths where executed checks relate that value to the buffer length through some chain of comparisons (decides that a relating chain exists, not that it is arithmetically sufficient). " +
+			"T15 loop progress: every loop of W is an iterator loop, a counted loop (an integer loop variable moved strictly on every back edge and compared in an exit test), a consumption loop (decreased on every back edge by a decoded amount that a dominating check makes positive: the GUID-table walk), or the one sweep loop (unacceptedMemRanges: a back edge that keeps the cursor lies behind two non-emptiness tests and two failed ordering tests, which make the consumed intersection non-empty); any other loop shape is counted as unclassified in evidence and gets no verdict. " +
 			"T14 (ESP) lock step: where an index saved from a loop is used after the loop to index a slice field that the loop appends to, every iteration of that loop appends to the field exactly once on every path. " +
 			"Not covered: general absence of panics for non-constant indices (would need a relational numeric domain sound under wrap-around), wall-time bounds as numbers.",
 		Assumptions: []string{"go/types, go/ssa, VTA call graph", "encoding/binary"},
@@ -86,6 +87,60 @@ func runC08(c *Ctx) {
 	c.sentinelRule("T10", fns)
 	c.lenMinusRule("T11", fns, map[string]string{})
 	c.widenAfterArithRule("T12", fns)
+	// sweep loops (a cursor that some iterations keep in place): confirmed by reading — today exactly one, the
+	// private-section sweep of ovmf.unacceptedMemRanges. An iteration that keeps the cursor shrinks the current RAM
+	// bank by its intersection with the current section; that consumes something only if the intersection is not
+	// empty, i.e. both regions are non-empty (two Length == 0 tests failed) and they overlap (the two ordering
+	// tests `section ends before the bank` / `section starts after the bank` failed).
+	sweep := func(f *ssa.Function, L *loop, phi *ssa.Phi, back *ssa.BasicBlock) (bool, string) {
+		empties := map[ssa.Value]bool{}
+		order := 0
+		for _, cf := range append(dominatingConds(back), edgeCond(back, L.Header)...) {
+			if !L.Body[cf.Block] {
+				continue
+			}
+			bo, ok := cf.Cond.(*ssa.BinOp)
+			if !ok {
+				continue
+			}
+			isLen := func(v ssa.Value) (ssa.Value, bool) {
+				p := flow.PathOf(stripConv(v))
+				if n := len(p.Fields); n > 0 && p.Fields[n-1] == "Length" {
+					return p.Root, true
+				}
+				return nil, false
+			}
+			isBound := func(v ssa.Value) bool {
+				v = stripConv(v)
+				if call, ok := v.(*ssa.Call); ok {
+					if g := call.Call.StaticCallee(); g != nil && g.Signature.Recv() != nil && g.Signature.Params().Len() == 0 {
+						return true // region.end()
+					}
+				}
+				p := flow.PathOf(v)
+				return len(p.Fields) > 0 && p.Fields[len(p.Fields)-1] == "Start"
+			}
+			switch bo.Op {
+			case token.EQL, token.NEQ:
+				zero := func(v ssa.Value) bool { k, ok := v.(*ssa.Const); return ok && isZeroIntConst(k) }
+				nonEmpty := (bo.Op == token.EQL && !cf.Val) || (bo.Op == token.NEQ && cf.Val)
+				if root, ok := isLen(bo.X); ok && zero(bo.Y) && nonEmpty {
+					empties[root] = true
+				}
+			case token.LEQ, token.GEQ, token.LSS, token.GTR:
+				if !cf.Val && isBound(bo.X) && isBound(bo.Y) {
+					order++
+				}
+			}
+		}
+		if len(empties) >= 2 && order >= 2 {
+			return true, ""
+		}
+		return false, fmt.Sprintf("found %d of 2 non-emptiness tests and %d of 2 failed ordering tests before the back edge", len(empties), order)
+	}
+	nL, nSw := c.loopProgressRule("T15", fns, sweep)
+	c.S.Floor("T15", "loops in the firmware-analysis closure", 10, nL)
+	c.S.Floor("T15", "sweep loops", 1, nSw)
 	c.S.Floor("T14", "slice fields indexed by a counter saved from the loop that fills them", 1, c.lockStepRule("T14", fns))
 	c.S.Floor("T13", "slices at loop-carried bounds under a foreign loop bound", 1, c.foreignBoundSliceRule("T13", fns))
 	if os.Getenv("VCHECK_SURVEY") != "" {
